@@ -48,8 +48,12 @@ extern size_t carquet_zstd_compress_bound(size_t src_size);
 
 typedef struct carquet_page_writer {
     carquet_buffer_t values_buffer;      /* Encoded values */
-    carquet_buffer_t def_levels_buffer;  /* Definition levels (RLE) */
-    carquet_buffer_t rep_levels_buffer;  /* Repetition levels (RLE) */
+    /* Levels (and BOOLEAN values) are buffered raw and encoded once per page in
+     * carquet_page_writer_finalize(): a page has exactly one length-prefixed
+     * block per level kind and one bit-packed run of booleans, however many
+     * add_values() calls contributed to it. */
+    carquet_buffer_t def_levels_buffer;  /* Definition levels (raw int16) */
+    carquet_buffer_t rep_levels_buffer;  /* Repetition levels (raw int16) */
     carquet_buffer_t page_buffer;        /* Final page with header */
 
     carquet_physical_type_t type;
@@ -281,6 +285,31 @@ static void update_statistics_double(carquet_page_writer_t* writer,
     }
 }
 
+/**
+ * Append count raw levels to a level buffer; levels == NULL means that every
+ * row has the level fill_level.
+ */
+static carquet_status_t buffer_levels(
+    carquet_buffer_t* buffer,
+    const int16_t* levels,
+    int64_t count,
+    int16_t fill_level) {
+
+    if (count <= 0) {
+        return CARQUET_OK;
+    }
+    if (levels) {
+        return carquet_buffer_append(buffer, levels, (size_t)count * sizeof(int16_t));
+    }
+    for (int64_t i = 0; i < count; i++) {
+        carquet_status_t status = carquet_buffer_append(buffer, &fill_level, sizeof(int16_t));
+        if (status != CARQUET_OK) {
+            return status;
+        }
+    }
+    return CARQUET_OK;
+}
+
 /* ============================================================================
  * Value Encoding
  * ============================================================================
@@ -309,21 +338,21 @@ carquet_status_t carquet_page_writer_add_values(
         writer->num_nulls += (num_values - num_non_null);
     }
 
-    /* Encode definition levels */
-    if (writer->max_def_level > 0 && def_levels) {
-        carquet_status_t lstatus = encode_levels(def_levels, num_values,
-                                                 writer->max_def_level,
-                                                 &writer->def_levels_buffer);
+    /* Buffer definition levels; a nullable column written without levels has
+     * every value present */
+    if (writer->max_def_level > 0) {
+        carquet_status_t lstatus = buffer_levels(&writer->def_levels_buffer,
+                                                 def_levels, num_values,
+                                                 writer->max_def_level);
         if (lstatus != CARQUET_OK) {
             return lstatus;
         }
     }
 
-    /* Encode repetition levels */
-    if (writer->max_rep_level > 0 && rep_levels) {
-        carquet_status_t lstatus = encode_levels(rep_levels, num_values,
-                                                 writer->max_rep_level,
-                                                 &writer->rep_levels_buffer);
+    /* Buffer repetition levels; without levels no value is repeated */
+    if (writer->max_rep_level > 0) {
+        carquet_status_t lstatus = buffer_levels(&writer->rep_levels_buffer,
+                                                 rep_levels, num_values, 0);
         if (lstatus != CARQUET_OK) {
             return lstatus;
         }
@@ -340,9 +369,11 @@ carquet_status_t carquet_page_writer_add_values(
 
     switch (writer->type) {
         case CARQUET_PHYSICAL_BOOLEAN: {
+            /* One byte per value for now: bit-packing every batch separately
+             * would pad each batch to a byte boundary inside the page */
             const uint8_t* bools = (const uint8_t*)values;
-            status = carquet_encode_plain_boolean(bools, num_non_null,
-                                                   &writer->values_buffer);
+            status = carquet_buffer_append(&writer->values_buffer, bools,
+                                            (size_t)num_non_null);
             break;
         }
 
@@ -498,21 +529,29 @@ carquet_status_t carquet_page_writer_finalize(
     carquet_status_t status = CARQUET_OK;
 
     if (writer->rep_levels_buffer.size > 0) {
-        status = carquet_buffer_append(&uncompressed,
-                                        writer->rep_levels_buffer.data,
-                                        writer->rep_levels_buffer.size);
+        status = encode_levels((const int16_t*)writer->rep_levels_buffer.data,
+                               (int64_t)(writer->rep_levels_buffer.size / sizeof(int16_t)),
+                               writer->max_rep_level, &uncompressed);
     }
 
     if (status == CARQUET_OK && writer->def_levels_buffer.size > 0) {
-        status = carquet_buffer_append(&uncompressed,
-                                        writer->def_levels_buffer.data,
-                                        writer->def_levels_buffer.size);
+        status = encode_levels((const int16_t*)writer->def_levels_buffer.data,
+                               (int64_t)(writer->def_levels_buffer.size / sizeof(int16_t)),
+                               writer->max_def_level, &uncompressed);
     }
 
     if (status == CARQUET_OK) {
-        status = carquet_buffer_append(&uncompressed,
-                                        writer->values_buffer.data,
-                                        writer->values_buffer.size);
+        if (writer->type == CARQUET_PHYSICAL_BOOLEAN) {
+            if (writer->values_buffer.size > 0) {
+                status = carquet_encode_plain_boolean(writer->values_buffer.data,
+                                                       (int64_t)writer->values_buffer.size,
+                                                       &uncompressed);
+            }
+        } else {
+            status = carquet_buffer_append(&uncompressed,
+                                            writer->values_buffer.data,
+                                            writer->values_buffer.size);
+        }
     }
 
     if (status != CARQUET_OK) {
